@@ -80,6 +80,41 @@ def handler_chop(st, opts):
     return {"problems": problems, "stats": stats, "sample": {"s": list(map(float, s)), "eps": eps, "model_rank": st["rpy"], "real_rank": r}}
 
 
+def handler_chop_cpp(st, opts):
+    """the same states through the compiled rank_chop (cpp/ortho.h, exposed by harness/cpp/vfchop.cpp): it stops at the first r whose
+    tail energy is >= eps^2, so the kept rank meets the threshold and is minimal up to exact ties"""
+    if st["rcpp"] == 0:
+        return None
+    import vfchop
+    e, (thn, thd) = st["e"], st["th"]
+    if thn <= 0 or sum(e) == 0:
+        return None                      # (eps <= 0 and the zero spectrum are outside the C11 domain of the compiled backend)
+    s = np.array([math.isqrt(v) for v in e], dtype=np.float64)
+    k = math.isqrt(thn)
+    eps = k / 2.0
+    problems, stats = [], {"calls": 1, "behaviours": 1, "nontrivial": 1 if len(e) >= 2 else 0}
+
+    def P(cls, msg):
+        return {"prop": "C17", "cls": cls, "op": "rank_chop_cpp", "key": {"op": "rank_chop_cpp", "cls": cls, "n": len(e)},
+                "msg": "compiled rank_chop(s=%s, eps=%s): %s" % (list(s), eps, msg),
+                "replay": {"engine": "vf.truncrun", "kind": "chop_cpp", "state": st, "prop": "C17"}}
+    try:
+        r = int(vfchop.rank_chop(torch.tensor(s.copy(), dtype=torch.float64), float(eps)))
+    except Exception as ex:  # noqa
+        return {"problems": [P("exception", "raised %s: %s" % (type(ex).__name__, ex))], "stats": stats}
+    if not (1 <= r <= len(s)):
+        problems.append(P("range", "returned %d, outside 1..%d" % (r, len(s))))
+    else:
+        tail = float(np.sum(s[r:] ** 2))
+        if tail > eps * eps:
+            problems.append(P("accuracy", "returned %d: discarded energy %g exceeds eps^2 = %g" % (r, tail, eps * eps)))
+        if r > 1 and float(np.sum(s[r - 1:] ** 2)) < eps * eps:
+            problems.append(P("minimal", "returned %d although %d values already stay strictly below the threshold" % (r, r - 1)))
+    if r != st["rcpp"]:
+        stats["drift-from-transcription"] = 1
+    return {"problems": problems, "stats": stats, "sample": {"s": list(map(float, s)), "eps": eps, "model_rank": st["rcpp"], "real_rank": r}}
+
+
 # ------------------------------------------------------------------ realisations
 def superdiag(sig, shape, dtype=torch.float64):
     T = torch.zeros(shape, dtype=dtype)
@@ -226,6 +261,15 @@ def svd_case(st, opts):
         variants.append(("tall", superdiag(sig, st2), "tt", st2, [], torch.float64, None))
     # explicit shape argument (reshape of a flat array)
     variants.append(("flat+shape", superdiag(sig, shape).reshape(-1), "tt", shape, [], torch.float64, list(shape)))
+    # a non-contiguous source (permuted view) with an explicit shape that merges the first two modes: the constructor has to
+    # reshape across strides (reshape copies where view cannot)
+    if d >= 2 and rm is None or isinstance(rm, int):
+        if d >= 2:
+            A0 = superdiag(sig, shape)
+            perm = list(range(d))[::-1]
+            src = A0.permute(perm).contiguous().permute(perm)          # the values of A0 in reversed-stride storage
+            merged = [shape[0] * shape[1]] + list(shape[2:])
+            variants.append(("strided+merge", src, "tt", merged, [], torch.float64, list(merged)))
     # numpy twins of the structured variants (the constructor dispatches on source type x shape form)
     for name, arr, kind, wN, wM, dt, shp in list(variants):
         if name in ("operator", "singleton", "flat+shape", "complex", "tall"):
@@ -392,7 +436,9 @@ def round_case(st, opts):
 
 
 def rerun(payload):
-    if payload["kind"] == "chop":
+    if payload["kind"] == "chop_cpp":
+        r = handler_chop_cpp(payload["state"], {})
+    elif payload["kind"] == "chop":
         r = handler_chop(payload["state"], {"prop": payload.get("prop", "C01")})
     else:
         r = handler_trunc(payload["state"], {"mode": payload["mode"]})
